@@ -2,20 +2,26 @@
 # usage: verify_seed.sh <seed dir name>   -- confirms a seeded change in a scratch worktree outside /repo and /verif
 set -u
 S=$1; D=/verif/seeded/$S; W=/tmp/sv_$S; OUT=$D/verify.log
+FEAT=$(python3 -c "import json;print(json.load(open('$D/agent_meta.json')).get('features','') or '')" 2>/dev/null | sed 's/--features//; s/^ *//; s/ *$//')
+FARG=""; [ -n "$FEAT" ] && FARG="--features $FEAT"
 git -C /repo worktree remove --force $W >/dev/null 2>&1
 git -C /repo worktree add -q --detach $W HEAD || exit 2
 cd $W
 {
 echo "== apply"; git apply $D/patch.diff && echo APPLY_OK || echo APPLY_FAIL
 echo "== build default/all-features"; cargo build --offline 2>&1 | tail -1; cargo build --offline --all-features 2>&1 | tail -1
-echo "== existing suite with the change"
-cargo test --workspace --offline --no-fail-fast > suite.out 2>&1; grep -E "^test .* FAILED|^---- " suite.out | head -5; grep -E "^test result" suite.out | awk '{p+=$4; f+=$6} END{print "SUITE passed",p,"failed",f}'
+echo "== existing suite with the change (default features)"
+cargo test --workspace --offline --no-fail-fast > suite.out 2>&1; grep -E "^test .* FAILED" suite.out | head -5
+grep -E "^test result" suite.out | awk '{p+=$4; f+=$6} END{print "SUITE passed",p,"failed",f}'
+echo "== existing suite with the change (--all-features)"
+cargo test --workspace --offline --no-fail-fast --all-features > suite2.out 2>&1; grep -E "^test .* FAILED" suite2.out | head -5
+grep -E "^test result" suite2.out | awk '{p+=$4; f+=$6} END{print "SUITEALL passed",p,"failed",f}'
 cp $D/seeded_demo.rs tests/seeded_demo.rs
-echo "== demo with the change"
-cargo test --offline --test seeded_demo 2>&1 | grep -E "^test result" | sed 's/^/DEMO_WITH /'
+echo "== demo with the change ($FARG)"
+cargo test --offline $FARG --test seeded_demo 2>&1 | grep -E "^test result" | sed 's/^/DEMO_WITH /'
 git apply -R $D/patch.diff
 echo "== demo without the change"
-cargo test --offline --test seeded_demo 2>&1 | grep -E "^test result" | sed 's/^/DEMO_WITHOUT /'
+cargo test --offline $FARG --test seeded_demo 2>&1 | grep -E "^test result" | sed 's/^/DEMO_WITHOUT /'
 } > $OUT 2>&1
 cd /; git -C /repo worktree remove --force $W
 grep -E "APPLY|SUITE|DEMO" $OUT | tr '\n' ' '; echo
